@@ -44,7 +44,8 @@ Section PsiGuard.
   Proof.
     induction m as [|kd c|bs cra crab cdec|c|c|a IHa b IHb]; intros evs inc Hn Hw Hp Hinc;
       cbn [has_psi] in Hp; try discriminate.
-    - cbn [run]. fold ns. destruct (Nat.eqb_spec ns 1) as [E1|_]; [contradiction|reflexivity].
+    - cbn [run]. fold ns. rewrite K_pf_ns_bad.
+      destruct (Z.eqb_spec (Z.of_nat ns) 1) as [E1|_]; [exfalso; apply Hn; lia|reflexivity].
     - destruct Hw as (Wa & Wb). cbn [run]. destruct (has_psi a) eqn:Pa.
       + rewrite (IHa evs inc Hn Wa eq_refl Hinc). reflexivity.
       + cbn [orb] in Hp.
@@ -202,14 +203,14 @@ Section TdmTop.
   Proof.
     unfold tdm_trial, tdm_init. rewrite K_tdm_reset, K_tdm_has_method, K_tdm_has_index. fold ns.
     destruct m as [m|]; cbn [oflag].
-    - destruct (run m srcs evs None) as [r|e]; [|reflexivity]. cbn [bind].
+    - destruct (run_nr m srcs evs None) as [r|e]; [|reflexivity]. cbn [bind].
       rewrite (map_ext (fun q : Z * Z => (tdm_store (fst q), tdm_store (snd q))) (fun q => q))
         by (intros (x, y); reflexivity).
       rewrite map_id. destruct (td_index st); cbn [bflag].
-      + destruct (mapM (take_wrap (s_events r)) (argsort (s_events r))) as [ev2|e]; [|reflexivity].
+      + destruct (mapM (take_wrap (fst r)) (argsort (fst r))) as [ev2|e]; [|reflexivity].
         cbn [bind]. rewrite K_tdm_has_tbl. cbn [oflag].
         destruct (scatter _ _ _ _) as [inv|e]; [|reflexivity]. cbn [bind].
-        destruct (mapM _ (s_tbl r)) as [t'|e]; [|reflexivity]. cbn [bind].
+        destruct (mapM _ (snd r)) as [t'|e]; [|reflexivity]. cbn [bind].
         rewrite K_tdm_no_tbl. reflexivity.
       + cbn [bind]. rewrite K_tdm_no_tbl. reflexivity.
     - cbn [bind]. destruct (td_index st); cbn [bflag].
